@@ -36,6 +36,11 @@ CORPUS = [
     (False, 0, [["A", 0, [0, 1], 30, 0, 60], ["T", 1800], ["S"], ["A", 0, [0, 1, 2], 30, 0, 60], ["A", 0, [3], 1, 0, 10], ["S"]]),
 ]
 
+CORPUS += [
+    # Foolscap front end: reservations of a lost connection must be released (seeded C22-b)
+    (False, 0, [["A", 0, [0, 1, 2], 30, 0, 100, 1], ["S"], ["C", 0], ["K", 1], ["S"], ["A", 0, [1, 2, 3], 30, 1, 100, 2], ["S"]]),
+]
+
 
 def free_fn(rng):
     return rng.choice([0, 5, 20, 40, 59, 60, 61, 100, 150, 250, 10 ** 6])
@@ -53,7 +58,8 @@ def run(ctx):
             ro = ctx.rng.random() < 0.25
             rs = ctx.rng.choice([0, 0, 10, 60, 1000])
             ops = U.gen_history(ctx.rng, ctx.rng.choice([10, 20, 40]), free_fn=free_fn,
-                                sizes=(0, 0, 1, 5, 10, 20, 30, 40, 60), n_si=2, shnums=(0, 1, 2, 3, 8))
+                                sizes=(0, 0, 1, 5, 10, 20, 30, 40, 60), n_si=2, shnums=(0, 1, 2, 3, 8),
+                                foolscap=0.5)
             cases.append((ro, rs, ops, False))
     lines, impl, recs = [], [], []
     for ro, rs, ops, concrete in cases:
